@@ -424,6 +424,11 @@ def is_instance(value: Any, type_: Any) -> bool:
     if type_ is int and (value is True or value is False):
         return False
 
+    # Unions must be checked member by member before the plain isinstance check below,
+    # which accepts a Union directly and would let booleans pass for an int member
+    if is_union(type_):
+        return any(is_instance(value, t) for t in get_args(type_))
+
     try:
         # As described in PEP 484 - section: "The numeric tower"
         if (type_ in [float, complex] and isinstance(value, (int, float))) or isinstance(
@@ -437,9 +442,6 @@ def is_instance(value: Any, type_: Any) -> bool:
 
     if is_optional(type_) and value is None:
         return True
-
-    if is_union(type_):
-        return any(is_instance(value, t) for t in get_args(type_))
 
     if is_collection(type_):
         orig = get_origin(type_)
